@@ -548,13 +548,13 @@ def run(ctx):
     cases = corpus() + [gen_case(rng, "g%d" % i) for i in range(ngen)]
     if not quick:
         cases.append(silent_drop_case())
-    binary = build_harness(PKG)
+    binary = build_harness(PKG, dirs=["lifecycle"])
     t0 = time.time()
     outs = run_cases(binary, wd, cases, parallel=16 if quick else 24)
     log("[C16] %d scenarios on real servers in %.1fs" % (len(cases), time.time() - t0))
     race_info = None
     if not quick:
-        rb = build_harness(PKG, race=True)
+        rb = build_harness(PKG, race=True, dirs=["lifecycle"])
         rcases = corpus() + [gen_case(rng, "r%d" % i) for i in range(80)]
         t1 = time.time()
         routs = run_cases(rb, wd, rcases, tag="race", parallel=8)
@@ -636,7 +636,7 @@ def run(ctx):
 def replay(path, wd):
     obj = json.load(open(path))
     case = obj["case"]
-    binary = build_harness(PKG)
+    binary = build_harness(PKG, dirs=["lifecycle"])
     out = run_cases(binary, wd, [case], tag="replay")[0]
     print(json.dumps({"implementation": out, "monitor": monitor(case, out)}, indent=1))
     if not out.get("panic"):
